@@ -132,6 +132,34 @@ impl Runtime {
         (res, t)
     }
 
+    /// run the script (which exports the function as `fx`), then call it through the host API
+    fn run_host(&mut self, script: &str, kind: u8, args: &[V]) -> (String, Vec<String>) {
+        self.trace.borrow_mut().clear();
+        self.runs += 1;
+        let r = kvh::catch(|| -> Result<KValue, String> {
+            self.koto.compile_and_run(script).map_err(|e| {
+                let s = e.to_string();
+                if matches!(e, koto::Error::CompileError { .. }) { format!("E:compile:{}", s.lines().next().unwrap_or("")) } else { classify_error(&s) }
+            })?;
+            let f = self.koto.exports().get("fx").ok_or_else(|| "E:other:fx not exported".to_string())?;
+            let vals: Vec<KValue> = args.iter().map(to_kvalue).collect();
+            let r = match kind {
+                0 => self.koto.call_function(f, CallArgs::Single(vals[0].clone())),
+                1 => self.koto.call_function(f, CallArgs::Separate(&vals)),
+                _ => self.koto.call_function(f, CallArgs::AsTuple(&vals)),
+            };
+            r.map_err(|e| classify_error(&e.to_string()))
+        });
+        let res = match r {
+            Ok(Ok(v)) => kvh::canon::value(&v),
+            Ok(Err(e)) => e,
+            Err(p) => format!("PANIC {}", p),
+        };
+        let t = self.trace.borrow().clone();
+        *self = Runtime::new_keep_runs(self.runs);
+        (res, t)
+    }
+
     fn new_keep_runs(runs: u64) -> Runtime {
         let mut r = Runtime::new();
         r.runs = runs;
@@ -195,6 +223,25 @@ impl V {
             V::M(es) => Some(es.iter().map(|(k, v)| V::T(vec![V::S(k.clone()), v.clone()])).collect()),
             _ => None,
         }
+    }
+}
+
+fn to_kvalue(v: &V) -> KValue {
+    match v {
+        V::Null => KValue::Null,
+        V::Bool(b) => KValue::Bool(*b),
+        V::I(i) => KValue::Number((*i).into()),
+        V::S(s) => KValue::Str(s.as_str().into()),
+        V::T(xs) => KValue::Tuple(KTuple::from(xs.iter().map(to_kvalue).collect::<Vec<_>>())),
+        V::L(xs) => KValue::List(KList::from_slice(&xs.iter().map(to_kvalue).collect::<Vec<_>>())),
+        V::M(es) => {
+            let m = KMap::new();
+            for (k, x) in es {
+                m.insert(k.as_str(), to_kvalue(x));
+            }
+            KValue::Map(m)
+        }
+        V::R(a, b) => KValue::Range(KRange::from(*a..*b)),
     }
 }
 
@@ -349,6 +396,11 @@ impl Def {
     /// script prefix: captured variables, the definition (defaults through `tick`), reassignment
     /// of the captured variables after creation, the instance map
     fn koto(&self) -> String {
+        self.koto_opts(0)
+    }
+    /// `emit_body`: the body reports its tuple through `emit` (for calling routes whose caller does
+    /// not hand the result back, e.g. a predicate of `keep`)
+    fn koto_opts(&self, emit_body: u8) -> String {
         let mut s = String::new();
         for (n, v) in &self.caps {
             s.push_str(&format!("v{} = {}\n", n, v.koto()));
@@ -378,6 +430,12 @@ impl Def {
         let tuple = if items.len() == 1 { format!("({},)", items[0]) } else { format!("({})", items.join(", ")) };
         if self.generator {
             s.push_str(&format!("  yield {}\n", tuple));
+        } else if emit_body > 0 {
+            s.push_str(&format!("  emit({})\n", tuple));
+            if emit_body == 2 {
+                // predicates have to return a Bool
+                s.push_str("  true\n");
+            }
         } else {
             s.push_str(&format!("  {}\n", tuple));
         }
@@ -2336,6 +2394,18 @@ struct Pending {
     capx: Option<CapxCase>,
     /// model-free cases: the expected canonical result and trace (the guide's answer)
     expect_result: Option<(String, Vec<String>)>,
+    /// how the function is reached when it is not called by the script's last line
+    route: Option<Route>,
+}
+
+/// calling routes other than a call expression in the script
+#[derive(Clone, Debug)]
+enum Route {
+    /// called back by a core-library function that passes a pair (ValuePair -> CallArgs::AsTuple, a
+    /// temporary tuple when the function's only argument is an unpacked tuple); the body emits
+    Callback(&'static str),
+    /// host API after the script ran: `Koto::call_function` with CallArgs 0 Single, 1 Separate, 2 AsTuple
+    Host(u8, Vec<V>),
 }
 
 /// the abstract case a script was rendered from (what the shrinker works on)
@@ -2762,7 +2832,10 @@ impl Ctx {
                 }
                 continue;
             }
-            let (res, trace) = self.rt.run(&c.script);
+            let (res, trace) = match &c.route {
+                Some(Route::Host(kind, vals)) => self.rt.run_host(&c.script, *kind, vals),
+                _ => self.rt.run(&c.script),
+            };
             self.rep.case(&c.request, c.nontrivial);
             self.rep.bump(&format!("family={}", c.family));
             let outcome_kind = if res.starts_with("E:") || res.starts_with("PANIC") {
@@ -2845,6 +2918,19 @@ impl Ctx {
 /// returns (agree, implementation text, why not)
 fn compare(c: &Pending, res: &str, trace: &[String], model: &str) -> (bool, String, String) {
     match c.family {
+        "bind" if matches!(c.route, Some(Route::Callback(_))) => {
+            // the body emits its tuple; the caller's own result is not compared
+            let impl_text = format!("{} | {}", trace.join(" "), res);
+            let mut want: Vec<String> = c.expect_trace.clone().unwrap_or_default();
+            if model.starts_with("(t") {
+                want.push(model.to_string());
+                let ok = trace == want.as_slice() && !(res.starts_with("E:") || res.starts_with("PANIC"));
+                (ok, impl_text, format!("called back with a pair by the core library ({:?}): the function must bind exactly as when it is called directly with that pair as a tuple; expected trace {:?}", c.route, want))
+            } else {
+                let ok = trace == want.as_slice() && res == model;
+                (ok, impl_text, format!("called back with a pair by the core library ({:?}): expected the error class {} of the direct call", c.route, model))
+            }
+        }
         "bind" => {
             let impl_text = format!("{} | {}", trace.join(" "), res);
             if let Some(t) = &c.expect_trace {
@@ -2901,7 +2987,7 @@ fn compare(c: &Pending, res: &str, trace: &[String], model: &str) -> (bool, Stri
 }
 
 fn capx_case(c: &CapxCase) -> Pending {
-    Pending { family: "capx", request: c.request(), script: c.koto(None), nontrivial: true, expect_trace: None, ast: None, capx: Some(c.clone()), expect_result: None }
+    Pending { family: "capx", request: c.request(), script: c.koto(None), nontrivial: true, expect_trace: None, ast: None, capx: Some(c.clone()), expect_result: None, route: None }
 }
 
 /// smaller capx cases: a line removed anywhere in the body (blocks stay non-empty), a compound line
@@ -2989,6 +3075,144 @@ fn capx_candidates(c: &CapxCase) -> Vec<CapxCase> {
     out
 }
 
+
+const CALLBACKS: &[&str] = &["map.each", "map.keep", "map.any", "map.find", "map.all", "enumerate.each", "enumerate.keep", "zip.each", "zip.keep"];
+
+/// the function reached as a callback that receives the pair (a, b)
+fn callback_case(d: &Def, kind: &'static str, a: &V, b: &V) -> Pending {
+    let ticks: Vec<String> = (0..d.n_opt()).map(|i| format!("t{}", i)).collect();
+    let key = if let V::S(k) = a { k.clone() } else { "k".to_string() };
+    let tail = match kind {
+        "map.each" => format!("xm = {{'{}': {}}}\nxm.each(f).consume()\n", key, b.koto()),
+        "map.keep" => format!("xm = {{'{}': {}}}\nxm.keep(f).count()\n", key, b.koto()),
+        "map.any" => format!("xm = {{'{}': {}}}\nxm.any(f)\n", key, b.koto()),
+        "map.find" => format!("xm = {{'{}': {}}}\nxm.find(f)\nnull\n", key, b.koto()),
+        "map.all" => format!("xm = {{'{}': {}}}\nxm.all(f)\n", key, b.koto()),
+        "enumerate.each" => format!("({},).enumerate().each(f).consume()\n", b.koto()),
+        "enumerate.keep" => format!("({},).enumerate().keep(f).count()\n", b.koto()),
+        "zip.each" => format!("({},).zip(({},)).each(f).consume()\n", a.koto(), b.koto()),
+        _ => format!("({},).zip(({},)).keep(f).count()\n", a.koto(), b.koto()),
+    };
+    let a_model = match kind {
+        k if k.starts_with("map.") => V::S(key),
+        k if k.starts_with("enumerate.") => V::I(0),
+        _ => a.clone(),
+    };
+    let pair = V::T(vec![a_model, b.clone()]);
+    Pending {
+        family: "bind",
+        request: format!("bind {} (plain 0 - (args ({} 0)))", d.sexp(), pair.canon()),
+        script: format!("{}{}", d.koto_opts(if kind.ends_with(".each") { 1 } else { 2 }), tail),
+        nontrivial: true,
+        expect_trace: Some(ticks),
+        ast: None,
+        capx: None,
+        expect_result: None,
+        route: Some(Route::Callback(kind)),
+    }
+}
+
+/// the function reached through the host API
+fn host_case(d: &Def, kind: u8, vals: &[V]) -> Pending {
+    let ticks: Vec<String> = (0..d.n_opt()).map(|i| format!("t{}", i)).collect();
+    let args: Vec<V> = match kind {
+        0 => vec![vals[0].clone()],
+        1 => vals.to_vec(),
+        _ => vec![V::T(vals.to_vec())],
+    };
+    Pending {
+        family: "bind",
+        request: format!("bind {} (plain 0 - (args{}))", d.sexp(), args.iter().map(|v| format!(" ({} 0)", v.canon())).collect::<String>()),
+        script: format!("{}export fx = f\n", d.koto()),
+        nontrivial: true,
+        expect_trace: Some(ticks),
+        ast: None,
+        capx: None,
+        expect_result: None,
+        route: Some(Route::Host(kind, vals.to_vec())),
+    }
+}
+
+fn fixed_len(p: &Pat) -> usize {
+    match p {
+        Pat::Tup(ps) => ps.iter().filter(|q| !matches!(q, Pat::Pk(_))).count(),
+        _ => 2,
+    }
+}
+
+/// every calling route other than a call expression, for one definition: core-library callbacks
+/// with a pair, host API with Single / Separate / AsTuple and container sizes around the fixed
+/// part of the first parameter's pattern
+fn route_cases(ctx: &mut Ctx, rng: &mut Rng, d: &Def, all_callbacks: bool) {
+    let mut d = d.clone();
+    d.generator = false;
+    if d.params.is_empty() {
+        return;
+    }
+    let k = fixed_len(&d.params[0].pat);
+    let key = ["ka", "kb", "key"][rng.below(3)].to_string();
+    let a = if rng.chance(1, 2) { V::S(key) } else { small_val(rng, 0) };
+    let b = small_val(rng, 1);
+    for (i, kind) in CALLBACKS.iter().enumerate() {
+        if all_callbacks || rng.below(CALLBACKS.len()) < 3 || i == 0 {
+            ctx.rep.bump(&format!("bind:route=callback:{}", kind));
+            ctx.push(callback_case(&d, kind, &a, &b));
+        }
+    }
+    // host API
+    for size in [k.saturating_sub(1), k, k + 1] {
+        let vals: Vec<V> = (0..size).map(|_| small_val(rng, 0)).collect();
+        ctx.rep.bump("bind:route=host:AsTuple");
+        ctx.push(host_case(&d, 2, &vals));
+    }
+    let first = matching_val(rng, &d.params[0].pat, 1);
+    ctx.rep.bump("bind:route=host:Single");
+    ctx.push(host_case(&d, 0, &[first.clone()]));
+    let arity = d.arity();
+    for count in [arity.saturating_sub(1), arity, arity + 1] {
+        let vals: Vec<V> = (0..count).map(|i| if i < arity { matching_val(rng, &d.params[i].pat, 1) } else { small_val(rng, 0) }).collect();
+        ctx.rep.bump("bind:route=host:Separate");
+        ctx.push(host_case(&d, 1, &vals));
+    }
+}
+
+/// single unpacked-tuple parameter (the runtime's temporary-tuple fast path) and neighbours:
+/// fixed part 1-3 x ellipsis none / first / last, named or not x an optional or variadic extra
+fn directed_route_defs() -> Vec<Def> {
+    let mut out = vec![];
+    for k in 1..=3usize {
+        for ell in 0..5 {
+            for extra in 0..3 {
+                let mut ng = 0u32;
+                let mut next = || {
+                    ng += 1;
+                    ng
+                };
+                let mut ps: Vec<Pat> = (0..k).map(|i| if i == 1 && k == 3 { Pat::Ign } else { Pat::Id(next()) }).collect();
+                match ell {
+                    1 => ps.insert(0, Pat::Pk(Some(next()))),
+                    2 => ps.insert(0, Pat::Pk(None)),
+                    3 => ps.push(Pat::Pk(Some(next()))),
+                    4 => ps.push(Pat::Pk(None)),
+                    _ => {}
+                }
+                let mut params = vec![Param { pat: Pat::Tup(ps), default: None }];
+                let mut variadic = false;
+                match extra {
+                    1 => params.push(Param { pat: Pat::Id(next()), default: Some(V::I(77)) }),
+                    2 => {
+                        params.push(Param { pat: Pat::Id(next()), default: None });
+                        variadic = true;
+                    }
+                    _ => {}
+                }
+                out.push(Def { params, variadic, caps: vec![(next(), V::I(5))], generator: false, self_ref: None, lates: vec![] });
+            }
+        }
+    }
+    out
+}
+
 fn bind_case(d: &Def, c: &Call) -> Pending {
     let ticks: Vec<String> = (0..d.n_opt()).map(|i| format!("t{}", i)).collect();
     Pending {
@@ -3000,6 +3224,7 @@ fn bind_case(d: &Def, c: &Call) -> Pending {
         ast: Some(CaseAst::Bind(d.clone(), c.clone())),
         capx: None,
         expect_result: None,
+        route: None,
     }
 }
 
@@ -3015,6 +3240,7 @@ fn cap_case(script: &[Ex]) -> Pending {
         ast: Some(CaseAst::Cap(script.to_vec())),
         capx: None,
         expect_result: None,
+        route: None,
     }
 }
 
@@ -3033,11 +3259,12 @@ fn share_case(ops: &[SOp]) -> Pending {
         ast: Some(CaseAst::Share(ops.to_vec())),
         capx: None,
         expect_result: None,
+        route: None,
     }
 }
 
 fn gen_case(g: &GenCase) -> Pending {
-    Pending { family: "gen", request: g.request(), script: g.koto(), nontrivial: true, expect_trace: None, ast: Some(CaseAst::Gen(g.clone())), capx: None, expect_result: None }
+    Pending { family: "gen", request: g.request(), script: g.koto(), nontrivial: true, expect_trace: None, ast: Some(CaseAst::Gen(g.clone())), capx: None, expect_result: None, route: None }
 }
 
 /// hand-written cases that pin the mutation classes of DESIGN §11 and the guide's own examples
@@ -3219,7 +3446,7 @@ fn corpus_cases(ctx: &mut Ctx, dir: &std::path::Path) {
         };
         let expect_trace = None;
         ctx.rep.bump("corpus");
-        ctx.push(Pending { family, request: req, script: script.to_string(), nontrivial: true, expect_trace, ast: None, capx: None, expect_result: None });
+        ctx.push(Pending { family, request: req, script: script.to_string(), nontrivial: true, expect_trace, ast: None, capx: None, expect_result: None, route: None });
     }
 }
 
@@ -3271,7 +3498,7 @@ fn main() {
     kvh::quiet_panics();
     let args = Args::parse();
     let mut rep = Report::new("C02", &args);
-    rep.rule = "case = one script + the same abstract case for the model. bind: function definition (0-3 required, 0-3 optional with tick()-wrapped defaults, variadic?, 0-3 captures reassigned after creation, 0-3 ids exported after the function was created and read by the body directly or through a thunk call (late-bound through the module's exports), self reference, `_`, nested tuple patterns depth<=2 with leading/trailing ellipsis, map patterns {k}, {k as v}, {k as _}) x call form (paren, paren-free, piped, instance, generator call) x argument count arity-2..arity+2 x 0-2 (thorough 0-3) packed arguments of length 0-3 at any position (count grid enumerated exhaustively for plain parameters, random for rich ones); cap: random scripts with nested (1-3 deep)/recursive closures, assignment targets read anywhere in the right-hand side; capx: random function and generator bodies over the wider syntax (block if/for/while/until, switch, match with binding patterns and guards, inline if, string interpolation, tuples, assignments nested in expressions, multi-assignment with {x} and {k as x} targets reading same-named outer variables, nested closures 1-3 deep): accessed_non_locals of the real parser = Model/CaptureX.lean, declaratively free names are captured, closure run = parameter run; dup: argument lists in which one name is used twice, every pair of positions (top level, nested tuple, rest..., {x}, {k as x}, variadic, with defaults) -> compile error; repeated `_q` accepted; late: 2-4 exported functions with 0-3 default arguments and 0-3 captures each that call functions exported later than themselves (mutually recursive countdowns, also consumed by a generator), result and tick trace computed directly from the guide; share: random histories over int/list variables, closures, defaults; gen: random generator bodies x 5 consumers. distinct = distinct request lines; non-trivial = bind: at least one parameter or capture, cap: defines a closure, share: calls a closure, gen: all".into();
+    rep.rule = "case = one script + the same abstract case for the model. bind: function definition (0-3 required, 0-3 optional with tick()-wrapped defaults, variadic?, 0-3 captures reassigned after creation, 0-3 ids exported after the function was created and read by the body directly or through a thunk call (late-bound through the module's exports), self reference, `_`, nested tuple patterns depth<=2 with leading/trailing ellipsis, map patterns {k}, {k as v}, {k as _}) x call form (paren, paren-free, piped, instance, generator call) x argument count arity-2..arity+2 x 0-2 (thorough 0-3) packed arguments of length 0-3 at any position (count grid enumerated exhaustively for plain parameters, random for rich ones); cap: random scripts with nested (1-3 deep)/recursive closures, assignment targets read anywhere in the right-hand side; capx: random function and generator bodies over the wider syntax (block if/for/while/until, switch, match with binding patterns and guards, inline if, string interpolation, tuples, assignments nested in expressions, multi-assignment with {x} and {k as x} targets reading same-named outer variables, nested closures 1-3 deep): accessed_non_locals of the real parser = Model/CaptureX.lean, declaratively free names are captured, closure run = parameter run; routes: every definition is also reached as a callback of core-library functions that pass a pair (map.each/keep/any/find/all, enumerate.each/keep, zip.each/keep; temporary-tuple fast path for a single unpacked-tuple parameter) and through the host API (call_function with CallArgs::Single/Separate/AsTuple, container sizes fixed part -1/0/+1), directed single-tuple-parameter definitions with fixed part 1-3 x ellipsis none/first/last; dup: argument lists in which one name is used twice, every pair of positions (top level, nested tuple, rest..., {x}, {k as x}, variadic, with defaults) -> compile error; repeated `_q` accepted; late: 2-4 exported functions with 0-3 default arguments and 0-3 captures each that call functions exported later than themselves (mutually recursive countdowns, also consumed by a generator), result and tick trace computed directly from the guide; share: random histories over int/list variables, closures, defaults; gen: random generator bodies x 5 consumers. distinct = distinct request lines; non-trivial = bind: at least one parameter or capture, cap: defines a closure, share: calls a closure, gen: all".into();
     let drv = if args.driver.is_empty() || args.has_flag("--no-driver") { None } else { Some(Driver::spawn(&args.driver)) };
     let mut ctx = Ctx { rt: Runtime::new(), drv, rep, pending: vec![] };
     if args.extra.windows(2).any(|w| w[0] == "--plant" && w[1] == "swap-free-args") {
@@ -3299,6 +3526,7 @@ fn main() {
             ast: None,
             capx: None,
         expect_result: None,
+        route: None,
         });
         ctx.flush();
         std::process::exit(ctx.rep.finish());
@@ -3391,6 +3619,19 @@ fn main() {
         }
     }
 
+    // ---- bind: every calling route ----------------------------------------------------------
+    for d in directed_route_defs() {
+        route_cases(&mut ctx, &mut rng, &d, true);
+    }
+    let n_route_defs = if thorough { 6000 } else { 400 };
+    for _ in 0..n_route_defs {
+        let (n_req, n_opt, variadic, n_caps) = (1 + rng.below(2), rng.below(3), rng.chance(1, 3), rng.below(3));
+        let n_req = if rng.chance(1, 2) { 1 } else { n_req };
+        let n_opt = if rng.chance(1, 2) { 0 } else { n_opt };
+        let variadic = variadic && rng.chance(1, 2);
+        let d = gen_def(&mut rng, n_req, n_opt, variadic, n_caps, true);
+        route_cases(&mut ctx, &mut rng, &d, false);
+    }
     // ---- bind: duplicated argument names, every pair of positions ---------------------------
     let n_dup = if thorough { 20000 } else { 1500 };
     let mut made = 0;
@@ -3468,6 +3709,7 @@ fn main() {
             ast: None,
             capx: None,
             expect_result: Some(c.expected()),
+            route: None,
         });
     }
     // ---- share ------------------------------------------------------------------------------
